@@ -16,6 +16,7 @@ Inductive rpc_out :=
 | RStatus (code : Z)        (* status.Error(code, ...) *)
 | RDeadline                 (* context.DeadlineExceeded itself *)
 | RWrapsDeadline            (* an error wrapping it *)
+| RCanceled                 (* context.Canceled itself: the request's context was cancelled, the handler gave up *)
 | RPanic.                   (* panic(any value) *)
 
 (* sheddinginterceptor.go:32-39: Fail iff the named result `err == context.DeadlineExceeded`
@@ -141,3 +142,24 @@ Section Adaptive.
     cbn [int_run fold_left]. fold (int_run (int_call s now over lat r) l). rewrite IH. apply int_call_flying.
   Qed.
 End Adaptive.
+
+(* ---- the CPU reading that feeds the shedder (lib/stat/usage.go:38-43): every 250 ms
+        usage := int64(float64(pre)*beta + float64(cur)*(1-beta)), beta = 0.95, from the first sample on ---- *)
+Definition cpu_next (pre cur : Z) : Z := (95 * pre + 5 * cur) / 100.
+
+(* one sample -- however hot: the reading is in 1/1000 of the quota, a few multiples of 1000 at the very most --
+   cannot lift a smoothed value of 0 to the shedder's threshold; in general one step moves by at most 5% of the sample *)
+Lemma cpu_one_hot_sample : forall s, 0 <= s <= 2000 -> 0 <= cpu_next 0 s <= 100.
+Proof. intros s Hs. unfold cpu_next. split; [apply Z.div_pos; lia|]. apply Z.div_le_upper_bound; lia. Qed.
+
+Lemma cpu_next_bounds : forall pre s, 0 <= pre -> 0 <= s ->
+  (95 * pre) / 100 <= cpu_next pre s <= (95 * pre) / 100 + s / 20 + 1.
+Proof.
+  intros pre s Hp Hs. unfold cpu_next. split.
+  - apply Z.div_le_mono; lia.
+  - assert (H1 : 95 * pre = 100 * ((95 * pre) / 100) + (95 * pre) mod 100) by (apply Z.div_mod; lia).
+    assert (H2 : 5 * s = 100 * ((5 * s) / 100) + (5 * s) mod 100) by (apply Z.div_mod; lia).
+    pose proof (Z.mod_pos_bound (95 * pre) 100 ltac:(lia)). pose proof (Z.mod_pos_bound (5 * s) 100 ltac:(lia)).
+    assert (H3 : (5 * s) / 100 = s / 20) by (replace (5 * s) with (s * 5) by lia; replace 100 with (20 * 5) by lia; rewrite Z.div_mul_cancel_r by lia; reflexivity).
+    apply Z.lt_succ_r. apply Z.div_lt_upper_bound; [lia|]. lia.
+Qed.
